@@ -16,6 +16,7 @@
      P T nin | sizes | params | inputs                                  (NegativeLogLikelihood of LinearModel(nin,1) with offset; the
                                                                          model's logarithm parameter = float log embedded into Q)
      S sq ignore dim reuse | lens | labels | preds                      (SquaredLoss<Sequence,Sequence>; EXC = documented exception)
+   With the arguments `ctx <n> <casefile>` the calling-context stage is printed instead (see handle_ctx below).
    Lines with real (non-rational) data run the float instantiation of the Section-polymorphic functions for
    ce, cev, huber, abs (L lines); all other real-data lines print "<kind> -". *)
 open C06_model
@@ -294,10 +295,68 @@ let handle l =
          Printf.sprintf "N v=%s dv=%s g=%s el=%s" (qs v) (qs (qhd r)) (qv (List.tl r)) (qv el))
     | k -> k ^ " -"
 
+(* calling-context stage (usage: c06_model ctx <ignored> <casefile>): for E, R and N lines on rational data the error function in
+   the calling contexts of harness/c06_loss.cpp `ctx` -- cs: serial reference (one thread); c2o / c3o: called from inside a parallel
+   region of 2 / 3 threads, i.e. C06Ctx.errfn_ctx with SHARK_NUM_THREADS = 2 / 3, every range assigned to thread 0, ranges in
+   increasing order; c2a / c3a: the same on every thread of the region (independent instances).  Other lines: "<kind> -". *)
+let handle_ctx l =
+  let toks = List.filter (fun x -> x <> "") (String.split_on_char ' ' l) in
+  match toks with
+  | [] -> ""
+  | kind :: _ ->
+    let g = Array.of_list (split_groups toks) in
+    let sec i = if i < Array.length g then g.(i) else [] in
+    let hd = Array.of_list g.(0) in
+    let is_real = List.exists (fun t -> String.contains t 'x' || String.contains t '.') (List.concat (List.tl (Array.to_list g))) in
+    if is_real || not (List.mem kind ["E"; "R"; "N"]) then kind ^ " -" else
+    match table hd.(1) (parse_q hd.(2)) with
+    | None -> kind ^ " -"
+    | Some k ->
+      let qsec i = List.map parse_q (sec i) and isec i = List.map int_of_string (sec i) in
+      let name = hd.(1) in
+      let nin = int_of_string hd.(4) in
+      let szs = isec 1 and params = qsec 2 and ins = rows nin (qsec 3) in
+      let n = List.length ins in
+      let labs : lab list =
+        if family name = VV then List.map (fun r -> (O, r)) (rows (List.length (sec 4) / (max n 1)) (qsec 4))
+        else List.map (fun c -> (nat_of_int c, [])) (isec 4) in
+      let es : elem list = List.map2 (fun x lb -> (x, lb)) ins labs in
+      let d = chunk szs es in
+      let a0 = fun _ -> O in
+      (* (eval, evalDerivative) of the error function with SHARK_NUM_THREADS = t: None = call from serial code, Some = nested call *)
+      let pair : int option -> vec * vec =
+        if kind = "N" then begin
+          let nh = int_of_string hd.(5) and nout = int_of_string hd.(6) in
+          let p1 = take (nin * nh + nh) params and p2 = drop (nin * nh + nh) params in
+          let m = { n1 = { lW = rows nin (take (nin * nh) p1); lb = drop (nin * nh) p1 };
+                    n2 = { lW = rows nh (take (nh * nout) p2); lb = drop (nh * nout) p2 } } in
+          (function None -> (net2_ef_eval k m (nat_of_int 1) d, net2_ef_evald k m (nat_of_int 1) d)
+                  | Some t -> let nt = nat_of_int t in let ord = nested_order nt d in
+                    (net2_ef_ctx_eval k m a0 ord nt d, net2_ef_ctx_evald k m a0 ord nt d))
+        end else begin
+          let nout = int_of_string hd.(5) in
+          let m = { lW = rows nin (take (nin * nout) params); lb = drop (nin * nout) params } in
+          let reg pe pr =
+            if kind <> "R" then (pe, pr) else begin
+              let lam = parse_q hd.(7) and mask = qsec 5 in
+              let one = hd.(6) = "one" in
+              let rv = if one then one_eval mask params else two_eval mask params in
+              let rg = if one then one_grad mask params else two_grad mask params in
+              (add_reg_eval lam rv pe, add_reg lam rv rg pr)
+            end in
+          (function None -> reg (ef_eval k m (nat_of_int 1) d) (ef_evald k m (nat_of_int 1) d)
+                  | Some t -> let nt = nat_of_int t in let ord = nested_order nt d in
+                    reg (ef_ctx_eval k m a0 ord nt d) (ef_ctx_evald k m a0 ord nt d))
+        end in
+      let triple c = let (pe, pr) = pair c in Printf.sprintf "%s:%s:%s" (qs (qhd pe)) (qs (qhd pr)) (qv (List.tl pr)) in
+      let t2 = triple (Some 2) and t3 = triple (Some 3) in
+      Printf.sprintf "%s cs=%s c2o=%s c3o=%s c2a=%s;%s c3a=%s;%s;%s" kind (triple None) t2 t3 t2 t2 t3 t3 t3
+
 let () =
-  let ic = open_in Sys.argv.(1) in
+  let ctx = Array.length Sys.argv >= 4 && Sys.argv.(1) = "ctx" in
+  let ic = open_in Sys.argv.(if ctx then 3 else 1) in
   (try while true do
       let l = input_line ic in
-      let out = try handle l with e -> (if l = "" then "?" else String.make 1 l.[0]) ^ " MODELEXC " ^ Printexc.to_string e in
+      let out = try (if ctx then handle_ctx l else handle l) with e -> (if l = "" then "?" else String.make 1 l.[0]) ^ " MODELEXC " ^ Printexc.to_string e in
       print_endline out
     done with End_of_file -> ())
